@@ -57,13 +57,13 @@ def run_case(case):
     n, nb = d["n"], d["nb"]
     outstep, h5save = o["outstep"], o["SavePhaseSpace"]
     cls = ["nb%d" % nb] + (["other_machine"] if "BeamEnergy" in o else []) + (["fs_route"] if o.get("SynchrotronFrequency") else []) \
-        + (["steps_per_revolution"] if o.get("StepsPerRevolution") else []) + (["from_results_file"] if case.get("startleg") else [])
+        + (["steps_per_revolution"] if o.get("StepsPerRevolution") else []) + (["from_results_file"] if case.get("startleg") else []) + (["impedance_file"] if o.get("Impedance") else [])
     if r.rc != 0 or "Finished." not in r.out:
         return fail(True, cls, "run failed rc=%s: %s | %s" % (r.rc, r.out[-400:], r.err[-400:]), "runfail")
     h = cli.H5(os.path.join(wd, "r.h5"))
     if not h.ok:
         return fail(True, cls, "results file unreadable: %s" % h.err, "unreadable")
-    haswake = "/WakePotential/data" in h.ds and o.get("VacuumGap", 0.03) != 0
+    haswake = "/WakePotential/data" in h.ds and (o.get("VacuumGap", 0.03) != 0 or bool(o.get("Impedance")))
     steps = d["steps"]
     exp = expected_steps(d, outstep)
     t = h["/Info/AxisValues_t"]
